@@ -94,6 +94,11 @@ def serialize_path_branch(ctx: Ctx):
                                 q, dest = cand, k.arg
                 if q != q0:
                     break
+    if not commits_in(q):
+        holders = [c for c in ctx.helper_closure(q0)[1:] if commits_in(c)]
+        if holders:
+            raise AnalysisError("the write-then-move commit lives in %s but the destination reaches it through another helper; "
+                                "cannot follow the path handling across these functions" % holders[0].rsplit(".", 1)[1])
     fi = ctx.fn(q)
     g = get_cfg(ctx, q)
     return q, fi, g, dest, commits_in(q)
@@ -248,11 +253,25 @@ def c17_r3(ctx: Ctx, rule):
 
 # ===================================================================================== C16
 def registry_classes(ctx: Ctx):
-    ctx.fenv("prov.serializers.Registry.load_serializers")
-    reg = ctx.f.class_attr("prov.serializers.Registry", "serializers")
-    if not isinstance(reg, dict):
-        raise AnalysisError("cannot fold Registry.serializers")
+    reg = ctx.registry_table()
     return {k: v.qual for k, v in reg.items() if isinstance(v, ClassRef)}
+
+
+def assigned_value(stmt, name):
+    """The expression assigned to `name` by the statement (pairwise for tuple assignments); None if assigned an unknown
+    value; False if the statement does not assign it."""
+    if not isinstance(stmt, ast.Assign):
+        return False
+    for t in stmt.targets:
+        if isinstance(t, ast.Name) and t.id == name:
+            return stmt.value
+        if isinstance(t, (ast.Tuple, ast.List)):
+            for i, e in enumerate(t.elts):
+                if isinstance(e, ast.Name) and e.id == name:
+                    if isinstance(stmt.value, (ast.Tuple, ast.List)) and len(stmt.value.elts) == len(t.elts):
+                        return stmt.value.elts[i]
+                    return None
+    return False
 
 
 @rule("C16", "C16.R1", "stream typestate in prov.read: a stream is never handed to a second format attempt un-rewound", 1, family="F-STATE",
@@ -280,10 +299,26 @@ def c16_r1(ctx: Ctx, rule):
 
     universe = {"NS", "RW"}
 
+    def stream_predicates():
+        """helper functions whose body is `return hasattr(x, "read")`."""
+        out = set()
+        for q2 in ctx.helper_closure(q):
+            f2 = ctx.fn(q2)
+            body = [s0 for s0 in f2.node.body if not (isinstance(s0, ast.Expr) and isinstance(s0.value, ast.Constant))]
+            if len(body) == 1 and isinstance(body[0], ast.Return) and isinstance(body[0].value, ast.Call) and call_name(body[0].value) == "hasattr" and len(body[0].value.args) == 2:
+                a0, a1 = body[0].value.args
+                if isinstance(a1, ast.Constant) and a1.value == "read" and f2.params and norm(a0) == f2.params[-1]:
+                    out.add(f2.name)
+        return out
+
+    preds = stream_predicates()
+
     def gen_edge(a, b, lab):
         out = set()
         if a.kind == "test":
             t = norm(a.stmt.test)
+            for pname in preds:
+                t = t.replace("%s(%s)" % (pname, src), 'hasattr(%s, "read")' % src)
             if t == 'hasattr(%s, "read")' % src or t == "hasattr(%s, 'read')" % src:
                 if lab == "false":
                     out.add("NS")
@@ -302,10 +337,11 @@ def c16_r1(ctx: Ctx, rule):
             return facts
         if consuming_calls(n):
             facts.discard("RW")
-        if isinstance(s, ast.Assign) and any(isinstance(t, ast.Name) and t.id == src for t in s.targets):
+        newval = assigned_value(s, src)
+        if newval is not False:
             facts.discard("NS")
             facts.discard("RW")
-            if isinstance(s.value, ast.Constant) and (s.value.value is None or isinstance(s.value.value, (str, bytes))):
+            if isinstance(newval, ast.Constant) and (newval.value is None or isinstance(newval.value, (str, bytes))):
                 facts.add("NS")
         for c in ast.walk(s):
             if isinstance(c, ast.Call) and call_name(c) == "seek" and isinstance(c.func.value, ast.Name) and c.func.value.id in aliases and c.args and isinstance(c.args[0], ast.Constant) and c.args[0].value == 0:
@@ -324,7 +360,7 @@ def c16_r1(ctx: Ctx, rule):
             o = i
             s0 = n.stmt
             if s0 is not None and n.kind not in ("test", "try", "handler"):
-                if isinstance(s0, ast.Assign) and any(isinstance(t, ast.Name) and t.id == src for t in s0.targets):
+                if assigned_value(s0, src) is not False:
                     o = False
                 if any(isinstance(c, ast.Call) and call_name(c) == "seek" and isinstance(c.func.value, ast.Name) and c.func.value.id in aliases for c in ast.walk(s0)):
                     o = False
@@ -359,12 +395,13 @@ def c16_r2(ctx: Ctx, rule):
     for fmt, cls in sorted(reg.items()):
         q = ctx.p.lookup_method(cls, "serialize")
         fi = ctx.fn(q)
-        tests = [n for n in walk_function(fi.node) if isinstance(n, ast.Call) and call_name(n) == "isinstance" and len(n.args) == 2 and "TextIOBase" in norm(n.args[1])]
+        scl = [x for x in ctx.helper_closure(q) if ctx.fn(x).module == fi.module]
+        tests = [n for x in scl for n in walk_function(ctx.fn(x).node) if isinstance(n, ast.Call) and call_name(n) == "isinstance" and len(n.args) == 2 and "TextIOBase" in norm(n.args[1])]
         res.ob("%s.serialize discriminates text targets (isinstance(.., io.TextIOBase)): %s" % (cls.rsplit(".", 1)[1], bool(tests)))
         if not tests:
             res.fail(rule.id, "no-text-binary-discrimination::%s" % cls, ctx.loc(q, fi.node), "%s.serialize writes the same object to text and binary targets" % cls.rsplit(".", 1)[1],
                      "serialize(StringIO) or serialize(BytesIO/path) raises TypeError")
-        for c in calls_in(fi.node):
+        for c in [c for x in scl for c in calls_in(ctx.fn(x).node)]:
             if call_name(c) in ("encode", "decode"):
                 enc = c.args[0].value if c.args and isinstance(c.args[0], ast.Constant) else next((k.value.value for k in c.keywords if k.arg == "encoding" and isinstance(k.value, ast.Constant)), None)
                 ok = enc is None or str(enc).lower().replace("-", "") == "utf8"
@@ -389,7 +426,8 @@ def c16_r2(ctx: Ctx, rule):
         dq = ctx.p.lookup_method(cls, "deserialize")
         df = ctx.fn(dq)
         raises_ni = any(isinstance(n, ast.Raise) and "NotImplementedError" in norm(n) for n in walk_function(df.node))
-        dtests = [n for n in walk_function(df.node) if isinstance(n, ast.Call) and call_name(n) == "isinstance" and len(n.args) == 2 and "TextIOBase" in norm(n.args[1])]
+        dcl = [x for x in ctx.helper_closure(dq) if ctx.fn(x).module == df.module]
+        dtests = [n for x in dcl for n in walk_function(ctx.fn(x).node) if isinstance(n, ast.Call) and call_name(n) == "isinstance" and len(n.args) == 2 and "TextIOBase" in norm(n.args[1])]
         delegated = any(call_name(c) == "parse" and not isinstance(c.func.value, ast.Name) or (call_name(c) == "parse" and "etree" not in norm(c.func)) for c in calls_in(df.node)) and fmt == "rdf"
         ok = bool(dtests) or raises_ni or delegated
         res.ob("%s.deserialize accepts text and binary streams: %s%s" % (cls.rsplit(".", 1)[1], ok, " (write-only format)" if raises_ni else " (delegated to rdflib)" if delegated else ""))
